@@ -13,7 +13,7 @@ def send_sites(ctx):
     target = ctx.find(name="send_requests", self_adt=ENG, trait=SR)
     out = []
     for d, bi, sp in common.lib_callers(ctx.facts, target):
-        b = ctx.body(d)
+        b = ctx.ibody(d)
         t = b.blocks[bi]["term"]
         kinds = [a for a in t["f"]["args"] if "RequestCancel" in a or "RequestOpen" in a]
         kind = "cancels" if any("RequestCancel" in a for a in kinds) else ("opens" if kinds else "?")
@@ -30,7 +30,7 @@ def record_sites(ctx):
                   for blk in rec["blocks"])
         if not hit:
             continue
-        b = ctx.body(d)
+        b = ctx.ibody(d)
         for bi, t, tm in b.real_calls():
             if t["f"]["def"].endswith(("::record_in_flight_cancels", "::record_in_flight_opens")):
                 out.append({"def": d, "bi": bi, "sp": t["sp"], "kind": t["f"]["def"].rsplit("_", 1)[-1], "term": tm, "body": b})
